@@ -167,10 +167,12 @@ impl Monitor for C09 {
                     }
                 }
                 None => {
+                    // the epoch manager cannot represent the farm's end: the contract treats the
+                    // expiry as unknown = not expired, so a started farm counts as active
                     if started {
                         active.insert(fmr.owner.to_string());
+                        c.stats.bump("probe.c09.active_farm_with_unrepresentable_end");
                     }
-                    uncertain = true;
                 }
             }
         }
@@ -208,6 +210,11 @@ impl Monitor for C09 {
             } else {
                 let shares: BTreeSet<u128> = to_owners.values().cloned().collect();
                 let n = active.len() as u128;
+                // the penalty is split with the owners of active farms: they may only go empty-handed
+                // when any share of it would round to nothing
+                if to_owners.is_empty() && penalty >= 4 * n {
+                    return Err(viol("C09.owners_not_paid", format!("penalty {penalty} with {n} active farm owner(s) {:?} went entirely to the fee collector", active)));
+                }
                 if !to_owners.is_empty() && (to_owners.len() as u128 != n || shares.len() != 1) {
                     return Err(viol("C09.unequal_shares", format!("active farm owners {:?} received {:?}", active, to_owners)));
                 }
